@@ -61,3 +61,227 @@ Definition ps35_seq_delim (c : codec) : bytes :=
   ps35_u16 c 65534 ++ ps35_u16 c 57565 ++ ps35_u32 c 0.
 
 Definition undefined_length : N := 4294967295.
+
+(** * Values (PS3.5 6.2, 7.8): a value field has even length; an odd-length
+    value is padded with one trailing byte: NUL (00H) for UI and for the
+    binary VRs (OB, UN, ...), SPACE (20H) for the other character string VRs. *)
+Definition ps35_text_vr (v : vr) : bool :=
+  match v with
+  | AE | AS | CS | DA | DS | DT | IS | LO | LT | PN | SH | ST | TM | UC | UI | UR | UT => true
+  | _ => false
+  end.
+Definition ps35_pad (v : vr) : N := if ps35_text_vr v then (match v with UI => 0 | _ => 32 end) else 0.
+Definition ps35_padded (v : vr) (raw : bytes) : bytes := if Nat.odd (length raw) then raw ++ [ps35_pad v] else raw.
+
+(** * Canonical data sets and the reference encoder (sections 7.1, 7.5, A.4).
+    A primitive element carries its value field (wire form); a sequence is a
+    list of items, each flagged explicit-length or undefined-length, and is
+    itself explicit-length or undefined-length; the lengths are computed here. *)
+Inductive celem : Type :=
+| CPrim (t : N * N) (v : vr) (val : bytes)
+| CSeq (t : N * N) (explicit : bool) (items : list (bool * list celem))
+| CPix (ot : list N) (frags : list bytes).
+
+Definition ps35_len (b : bytes) : N := N.of_nat (length b).
+
+Fixpoint canon_elem (c : codec) (e : celem) : bytes :=
+  let items_enc :=
+    fix items_enc (its : list (bool * list celem)) : bytes :=
+      match its with
+      | [] => []
+      | (ex, es) :: rest =>
+          let elems_enc :=
+            fix elems_enc (es : list celem) : bytes :=
+              match es with [] => [] | e :: es' => canon_elem c e ++ elems_enc es' end in
+          let body := elems_enc es in
+          (if ex then ps35_item_header c (ps35_len body) ++ body
+           else ps35_item_header c undefined_length ++ body ++ ps35_item_delim c) ++ items_enc rest
+      end in
+  match e with
+  | CPrim t v val => ps35_header c t v (ps35_len val) ++ val
+  | CSeq t ex its =>
+      let body := items_enc its in
+      if ex then ps35_header c t SQ (ps35_len body) ++ body
+      else ps35_header c t SQ undefined_length ++ body ++ ps35_seq_delim c
+  | CPix ot frags =>
+      ps35_header c (32736, 16) OB undefined_length
+        ++ ps35_item_header c (4 * N.of_nat (length ot)) ++ flat_map (ps35_u32 c) ot
+        ++ flat_map (fun f => ps35_item_header c (ps35_len f) ++ f) frags
+        ++ ps35_seq_delim c
+  end.
+Fixpoint canon_encode (c : codec) (es : list celem) : bytes :=
+  match es with [] => [] | e :: es' => canon_elem c e ++ canon_encode c es' end.
+Fixpoint canon_items (c : codec) (its : list (bool * list celem)) : bytes :=
+  match its with
+  | [] => []
+  | (ex, es) :: rest =>
+      (if ex then ps35_item_header c (ps35_len (canon_encode c es)) ++ canon_encode c es
+       else ps35_item_header c undefined_length ++ canon_encode c es ++ ps35_item_delim c) ++ canon_items c rest
+  end.
+
+(** * Structural validator (independent recursive-descent parser, explicit fuel).
+    [is_sq]: in implicit VR, which tags are sequences (there is no VR on the wire).
+    Checks: every header is complete; in explicit VR the VR code is a defined
+    one, the 16-bit form is used exactly for the listed VRs and the reserved
+    bytes are zero; every defined length is even and the value bytes are
+    present; defined-length sequences and items end exactly where their
+    length says; undefined-length ones are closed by the matching delimiter
+    (with zero length); no stray delimiters; encapsulated pixel data is a
+    sequence of defined, even-length items closed by a sequence delimiter. *)
+Definition ps35_take (k : nat) (b : bytes) : option (bytes * bytes) :=
+  if Nat.ltb (length b) k then None else Some (firstn k b, skipn k b).
+Definition ps35_rd (c : codec) (b : bytes) : N := match c with EBE => be_val b | _ => le_val b end.
+Definition bytes_eqb (a b : bytes) : bool := list_eqb N.eqb a b.
+Definition ps35_vr_of_code (code : bytes) : option vr := find (fun v => bytes_eqb (ps35_vr_code v) code) all_vrs.
+
+(* header of a data element: (tag, is-sequence-VR?, is-OB-or-unknown?, length, rest) *)
+Definition ps35_parse_header (c : codec) (is_sq : N * N -> bool) (b : bytes)
+  : option ((N * N) * bool * bool * N * bytes) :=
+  match ps35_take 4 b with
+  | None => None
+  | Some (tg, r) =>
+      let t := (ps35_rd c (firstn 2 tg), ps35_rd c (skipn 2 tg)) in
+      match c with
+      | ILE =>
+          match ps35_take 4 r with
+          | None => None
+          | Some (l, r') => Some (t, is_sq t, true, ps35_rd c l, r')
+          end
+      | _ =>
+          match ps35_take 2 r with
+          | None => None
+          | Some (code, r1) =>
+              match ps35_vr_of_code code with
+              | None => None
+              | Some v =>
+                  if ps35_len16 v then
+                    match ps35_take 2 r1 with
+                    | None => None
+                    | Some (l, r2) => Some (t, vr_eqb v SQ, vr_eqb v OB, ps35_rd c l, r2)
+                    end
+                  else
+                    match ps35_take 2 r1 with
+                    | Some ([0; 0], r2) =>
+                        match ps35_take 4 r2 with
+                        | None => None
+                        | Some (l, r3) => Some (t, vr_eqb v SQ, vr_eqb v OB, ps35_rd c l, r3)
+                        end
+                    | _ => None
+                    end
+              end
+          end
+      end
+  end.
+
+(* item-level header: (element number of group FFFE, length, rest) *)
+Definition ps35_parse_item (c : codec) (b : bytes) : option (N * N * bytes) :=
+  match ps35_take 8 b with
+  | None => None
+  | Some (h, r) =>
+      if N.eqb (ps35_rd c (firstn 2 h)) 65534
+      then Some (ps35_rd c (firstn 2 (skipn 2 h)), ps35_rd c (skipn 4 h), r)
+      else None
+  end.
+
+Definition is_even (n : N) : bool := N.eqb (n mod 2) 0.
+
+(* pixel fragments until the sequence delimiter; returns the rest *)
+Fixpoint v_frags (fuel : nat) (c : codec) (b : bytes) : option bytes :=
+  match fuel with
+  | O => None
+  | S f =>
+      match ps35_parse_item c b with
+      | Some (57565, 0, r) => Some r
+      | Some (57344, len, r) =>
+          if N.eqb len undefined_length || negb (is_even len) then None
+          else match ps35_take (N.to_nat len) r with
+               | Some (_, r') => v_frags f c r'
+               | None => None
+               end
+      | _ => None
+      end
+  end.
+
+(* [v_elems fuel c is_sq in_undef_item b]: the elements of a container.
+   A defined-length container is validated on exactly its bytes ([in_undef_item = false]: must
+   end at the end of [b], returns [Some []]); an undefined-length item ends at its item
+   delimiter and the rest is returned. *)
+Fixpoint v_elems (fuel : nat) (c : codec) (is_sq : N * N -> bool) (in_undef_item : bool) (b : bytes)
+  : option bytes :=
+  match fuel with
+  | O => None
+  | S f =>
+      match b with
+      | [] => if in_undef_item then None else Some []
+      | _ =>
+          match ps35_parse_item c b with
+          | Some (57357, len, r) => if in_undef_item && N.eqb len 0 then Some r else None
+          | Some _ => None     (* any other group-FFFE tag is not a data element *)
+          | None =>
+              match ps35_parse_header c is_sq b with
+              | None => None
+              | Some (t, sq, ob, len, r) =>
+                  let items :=
+                    fix items (g : nat) (undef_seq : bool) (b : bytes) : option bytes :=
+                      match g with
+                      | O => None
+                      | S g' =>
+                          match b with
+                          | [] => if undef_seq then None else Some []
+                          | _ =>
+                              match ps35_parse_item c b with
+                              | Some (57565, 0, r) => if undef_seq then Some r else None
+                              | Some (57344, ilen, r) =>
+                                  if N.eqb ilen undefined_length then
+                                    match v_elems f c is_sq true r with
+                                    | Some r' => items g' undef_seq r'
+                                    | None => None
+                                    end
+                                  else if negb (is_even ilen) then None
+                                  else
+                                    match ps35_take (N.to_nat ilen) r with
+                                    | Some (chunk, r') =>
+                                        match v_elems f c is_sq false chunk with
+                                        | Some _ => items g' undef_seq r'
+                                        | None => None
+                                        end
+                                    | None => None
+                                    end
+                              | _ => None
+                              end
+                          end
+                      end in
+                  if N.eqb (fst t) 32736 && N.eqb (snd t) 16 && N.eqb len undefined_length && negb sq then
+                    if ob then match v_frags fuel c r with
+                               | Some r' => v_elems f c is_sq in_undef_item r'
+                               | None => None end
+                    else None
+                  else if sq || N.eqb len undefined_length then
+                    if N.eqb len undefined_length then
+                      match items fuel true r with
+                      | Some r' => v_elems f c is_sq in_undef_item r'
+                      | None => None
+                      end
+                    else if negb (is_even len) then None
+                    else
+                      match ps35_take (N.to_nat len) r with
+                      | Some (chunk, r') =>
+                          match items fuel false chunk with
+                          | Some _ => v_elems f c is_sq in_undef_item r'
+                          | None => None
+                          end
+                      | None => None
+                      end
+                  else if negb (is_even len) then None
+                  else
+                    match ps35_take (N.to_nat len) r with
+                    | Some (_, r') => v_elems f c is_sq in_undef_item r'
+                    | None => None
+                    end
+              end
+          end
+      end
+  end.
+
+Definition ps35_valid (c : codec) (is_sq : N * N -> bool) (b : bytes) : bool :=
+  match v_elems (S (length b)) c is_sq false b with Some _ => true | None => false end.
